@@ -3,6 +3,8 @@
 package subrig
 
 import (
+	"time"
+	"encoding/json"
 	"os"
 	"sort"
 
@@ -121,4 +123,23 @@ func TestDevRand(t *testing.T) {
 		fmt.Printf("%6d %s\n", stats[k], k)
 	}
 	fmt.Println("cases", n, "soloRuns", SoloRuns)
+}
+
+func TestDevOne(t *testing.T) {
+	var h History
+	if err := json.Unmarshal([]byte(os.Getenv("H")), &h); err != nil {
+		t.Fatal(err)
+	}
+	res := show(t, "one", h)
+	fmt.Println(res.Inconclusive)
+}
+
+func TestDevSolo(t *testing.T) {
+	for i := 0; i < 5; i++ {
+		t0 := time.Now()
+		it := soloRun(0, FIn0, EventPayload(i, 0, ""))
+		fmt.Println(time.Since(t0), it)
+	}
+	uptime, _ := os.ReadFile("/proc/loadavg")
+	fmt.Println(string(uptime))
 }
